@@ -368,7 +368,42 @@ def workarray_replay_fails(case):
     return None
 
 
+TIE_PROGRAMS = {
+    'min(x,x*x)': lambda x: algopy.minimum(x, x * x), 'min(x*x,x)': lambda x: algopy.minimum(x * x, x),
+    'max(x,x*x)': lambda x: algopy.maximum(x, x * x), 'max(x*x,x)': lambda x: algopy.maximum(x * x, x),
+    'min(x,2x-x*x)+max(x,x*x*x)': lambda x: algopy.minimum(x, 2.0 * x - x * x) + algopy.maximum(x, x * x * x),
+}
+
+
+def tie_program_fails(case):
+    """selections between two traced operands whose base points TIE exactly in some entries (x vs x*x at 0 and 1) while their
+    higher coefficients differ: the replay picks the same operand as the direct run, entry by entry"""
+    f = TIE_PROGRAMS[case['prog']]
+    rec = np.array(case['rec'])
+    cg = algopy.CGraph()
+    fx = algopy.Function(UTPM(rec.copy()) if case['rec_kind'] == 'utpm' else rec[0, 0].copy())
+    fy = f(fx)
+    cg.trace_off()
+    cg.independentFunctionList = [fx]
+    cg.dependentFunctionList = [fy]
+    want0 = f(UTPM(rec.copy()) if case['rec_kind'] == 'utpm' else rec[0, 0].copy())
+    if not close(val(fy.x), val(want0), 1e-12):
+        return 'tie-record-value: %s: traced value differs from the direct run while recording (tied base points)' % case['prog']
+    for k, pt in enumerate(case['pts']):
+        pt = np.array(pt)
+        want = f(UTPM(pt.copy())).data
+        try:
+            got = cg.function([UTPM(pt.copy())])[0].data
+        except Exception as ex:
+            return 'tie-replay-exception: %s' % (type(ex).__name__ + ':' + str(ex)[:60])
+        if got.shape != want.shape or not close(got, want, 1e-12):
+            return 'tie-replay: %s: replay number %d differs from the direct run at tied base points (max diff %s)' % (case['prog'], k + 1, maxdiff(got, want))
+    return None
+
+
 def replay_case(ctx, case):
+    if case.get('op') == 'tie-program':
+        return tie_program_fails(case)
     if case.get('op') == 'workarray-replay':
         return workarray_replay_fails(case)
     if case.get('op') == 'tracer-cmp':
@@ -448,6 +483,18 @@ def run(ctx):
             ctx.evaluations += 1
             ctx.count('hand-wrapped-work-array')
             f = workarray_replay_fails(case)
+            if f:
+                ctx.report(case, 'failure', f)
+    for name in sorted(TIE_PROGRAMS):
+        for rec_kind in ('ndarray', 'utpm'):
+            def tied(D_, P_):
+                a = rand_coeffs(rng, (D_, P_, 5), -2, 2)
+                a[0, :, :] = np.array([0.0, 1.0, -0.5, 2.0, 1.0])          # ties of x and x*x at 0 and 1
+                return a
+            case = {'op': 'tie-program', 'prog': name, 'rec_kind': rec_kind, 'rec': tied(3, 2), 'pts': [tied(3, 2), tied(2, 1), tied(4, 3)]}
+            ctx.evaluations += 1
+            ctx.count('tie-program')
+            f = tie_program_fails(case)
             if f:
                 ctx.report(case, 'failure', f)
     for i in range(60 if ctx.tier == 'quick' else 600):
